@@ -326,14 +326,27 @@ def written_as_held(model: Model, run: Run) -> None:
 def purity(model: Model, run: Run, ex) -> None:
     """Writers are pure functions of the dataclass fields: no module state, no iteration over set/dict, no attribute writes."""
     n = 0
-    for cq, c in model.classes.items():
-        for mname in ("pack", "_pack_inner", "get_value"):
-            fi = c.methods.get(mname)
-            if fi is None:
-                continue
+    targets = [c.methods[mname] for cq, c in model.classes.items() for mname in ("pack", "_pack_inner", "get_value") if mname in c.methods]
+    # module-level functions that are handed a writer (pack helpers outside asn1.py) are writers too
+    for fq, f_ in list(model.functions.items()):
+        if f_.cls is None and not isinstance(f_.node, ast.Lambda) and f_.module != "sansldap.asn1" and \
+                any(a.annotation is not None and norm(a.annotation).endswith("ASN1Writer") for a in f_.node.args.args + f_.node.args.kwonlyargs):
+            targets.append(f_)
+    for fi in targets:
+        if True:
             n += 1
             bad = None
             for x in ast.walk(fi.node):
+                if isinstance(x, ast.Name) and isinstance(x.ctx, ast.Load) and x.id not in fi.params():
+                    # a module-level *object* (something constructed once at import time: a shared writer, a cache) used by a writer
+                    gq = model.resolve_name(fi.module, x.id)
+                    if gq and gq not in model.classes and gq not in model.functions and gq.rsplit(".", 1)[0] in model.modules:
+                        gm, gn = gq.rsplit(".", 1)
+                        sts = [s_ for s_ in model.modules[gm].globals_.get(gn, []) if isinstance(s_, (ast.Assign, ast.AnnAssign)) and s_.value is not None]
+                        if sts and any(isinstance(s_.value, (ast.Call, ast.Dict, ast.List, ast.Set)) and
+                                       not (isinstance(s_.value, ast.Call) and norm(s_.value.func).split(".")[-1] in ("compile", "TypeVar", "frozenset", "tuple", "namedtuple", "Struct"))
+                                       for s_ in sts):
+                            bad = f"module-level object `{x.id}` (shared between all messages and sessions)"
                 if isinstance(x, ast.Attribute) and isinstance(x.ctx, (ast.Store, ast.Del)):
                     bad = f"attribute write `{norm(x)}`"
                 elif isinstance(x, (ast.Global, ast.Nonlocal)):
